@@ -35,7 +35,7 @@ theorem nsOf_zero_of_minted {P : List Pend} {next : Nat} (h : ∀ p ∈ P, ∀ i
     | run a b => simp [hk] at hs
     | del i f => simp [hk] at hs
     | cls i => simp [hk] at hs
-    | upl a b c d => simp [hk] at hs
+    | upl a b c => simp [hk] at hs
   · unfold nrOf
     rw [List.length_eq_zero_iff, List.filter_eq_nil_iff]
     intro p hp hs
@@ -45,7 +45,7 @@ theorem nsOf_zero_of_minted {P : List Pend} {next : Nat} (h : ∀ p ∈ P, ∀ i
     | run a b => simp [hk] at hs; have := h p hp a (by simp [sidOf, hk]); omega
     | del i f => simp [hk] at hs
     | cls i => simp [hk] at hs
-    | upl a b c d => simp [hk] at hs
+    | upl a b c => simp [hk] at hs
 
 /-- **a POST without a session id** -/
 theorem sim_append_op {cfg : Cfg} {d d' : RState} {m : Mon} {o : Obs} (hs : Sim cfg d m) {op : Op} {r : Req}
@@ -97,7 +97,7 @@ theorem sim_append_op {cfg : Cfg} {d d' : RState} {m : Mon} {o : Obs} (hs : Sim 
       cases hkind : p.kind with
       | slow a b => rfl
       | run a b => rfl
-      | upl a b c d => rfl
+      | upl a b c => rfl
       | del i f =>
         rw [hkind] at h0
         have hi := hs.pok.minted p hp i (by simp [sidOf, hkind])
@@ -332,7 +332,7 @@ theorem sim_append_op {cfg : Cfg} {d d' : RState} {m : Mon} {o : Obs} (hs : Sim 
         cases hkind : p.kind with
         | slow a b => rw [hkind] at hsh; exact hsh
         | run a b => rw [hkind] at hsh; exact hsh
-        | upl a b c d => rw [hkind] at hsh; exact hsh
+        | upl a b c => rw [hkind] at hsh; exact hsh
         | del i f =>
           rw [hkind] at hsh
           have hi := hs.pok.minted p hp i (by simp [sidOf, hkind])
